@@ -15,6 +15,10 @@ use std::ops::Deref;
 """
 
 
+PROBE_BOUND = {"Debug": "::core::fmt::Debug", "Clone": "Clone", "Copy": "Copy", "PartialEq": "PartialEq", "Eq": "Eq",
+               "Default": "Default", "Display": "::core::fmt::Display"}
+
+
 def has(d, t):
     return t in d["traits"]
 
@@ -84,9 +88,10 @@ def render_call(d):
             'let inner = s.parse::<Inner>(); '
             'let xx = json!({"inner": match &inner { Ok(v) => json!({"ok": true, "v": [v.enc()]}), Err(_) => json!({"ok": false, "v": []}) }}); '
             '(guard(|| match s.parse::<%s>() { Ok(t) => ok(t.into_inner().enc()), Err(e) => { let msg = e.to_string(); %s } }), xx) }' % (T, m))
-    arms.extend(observer_arms(d, T, validated))
-    if d["vmode"] == "std":
-        arms.append(msgs_arm(d, T))
+    if not d.get("minimal_driver"):
+        arms.extend(observer_arms(d, T, validated))
+        if d["vmode"] == "std":
+            arms.append(msgs_arm(d, T))
     arms.append('_ => (json!({"k": "noep"}), Value::Null)')
     return "pub fn call(ep: &str, inp: &Value) -> (Value, Value) {\n    match ep {\n        %s\n    }\n}\n" % ",\n        ".join(arms)
 
@@ -313,8 +318,12 @@ def render_module(d):
     inner = inner_type(d).replace("T", "i32") if d.get("gen_decl") else inner_type(d)
     src += "pub type Inner = %s;\n" % inner
     src += "pub type NtC = Nt%s;\n" % d.get("gen_use", "")
-    src += render_variant_match(d)
-    src += render_helpers(d)
+    if not d.get("minimal_driver"):
+        src += render_variant_match(d)
+        src += render_helpers(d)
+    for t in d.get("probe_traits", []):
+        # C02: a written derive must be honoured; the probe fails to compile (mentioning `Probe`) when the impl is missing
+        src += "pub struct Probe%s<T: %s>(::core::marker::PhantomData<T>);\npub type UseProbe%s = Probe%s<NtC>;\nconst _: fn() = || { let _ = ::core::mem::size_of::<UseProbe%s>(); };\n" % (t, PROBE_BOUND.get(t, t), t, t, t)
     src += render_call(d)
     return src
 
